@@ -9,7 +9,7 @@ TB_COMMON = [
 
 PROPS = {}
 NOT_APPLICABLE = {}
-HOOK_COMMITS = []
+HOOK_COMMITS = ['0378f89', '5b36563', '2d739c2']
 # properties whose check exists in the tree but is not yet claimed (still being built / reviewed)
 NOT_READY = {"C13", "C15", "C19"}
 
